@@ -329,7 +329,8 @@ impl Report {
         // a secondary pass (the same check on a build with debug assertions enabled, see ./run)
         // keeps its replays apart and does not write the evidence file
         let secondary = std::env::var("VERIF_SECONDARY").is_ok();
-        let replay_dir = root.join("replays").join(if secondary { format!("{}-debug-assertions", self.property) } else { self.property.clone() });
+        let suffix = std::env::var("VERIF_SECONDARY").ok().filter(|v| v != "1").unwrap_or_else(|| "debug-assertions".to_string());
+        let replay_dir = root.join("replays").join(if secondary { format!("{}-{suffix}", self.property) } else { self.property.clone() });
         let _ = std::fs::remove_dir_all(&replay_dir);
         let mut lines = Vec::new();
         if !real.is_empty() {
